@@ -78,16 +78,25 @@ def judgeRt (inp obs : List String) : Verdict :=
     { corr, spec }
   | _, _, _ => badInput "dhcprt"
 
-/-- `dhcpparse <hex> => ok <dump> | err:<kind> | panic:<msg>` -/
+/-- `dhcpparse <hex> => ok <dump> || <decode of the re-encoding> | err:<kind> | panic:<msg>` -/
 def judgeParse (inp obs : List String) : Verdict :=
   match inp with
   | [h] =>
     match fromHex h with
     | some bytes =>
-      let o := " ".intercalate obs
-      let mdl := showParse (parse bytes)
-      { corr := agreeIf (mdl == o) s!"model={mdl}",
-        spec := if o.startsWith "panic" then "unsat:C05.no_panic:dhcp-parse" else "sat" }
+      let first := " ".intercalate (obs.takeWhile (· != "||"))
+      let again := " ".intercalate ((obs.dropWhile (· != "||")).drop 1)
+      let r := parse bytes
+      let mdl := showParse r
+      let mdlAgain := match r with
+        | .ok m => showParse (parse (serialise m))
+        | .error _ => ""
+      { corr := if mdl != first then s!"differ:model={mdl}"
+                else if mdlAgain != again then s!"differ:reencode model={mdlAgain}"
+                else "agree",
+        spec := if first.startsWith "panic" then "unsat:C05.no_panic:dhcp-parse"
+                else if first.startsWith "ok" && again != first then "unsat:C12.decode_encode_decode:reencoded-differs"
+                else "sat" }
     | none => badInput "hex"
   | _ => badInput "dhcpparse"
 
